@@ -23,7 +23,7 @@ EXPLANATION = (
   "class-level containers outside the tabled, idempotent ones."
 )
 RULE_TEXT = "per FileTypes member x {reader, writer}, per configuration class, per output-opening statement, per config field, per set iteration / global mutation"
-UNDECIDED = ["byte identity with the library pipeline as a whole", "that every decoder rejects exactly the undocumented values (only the kind of decoder is checked)",
+UNDECIDED = ["byte identity with the library pipeline as a whole", "that every decoder rejects exactly the undocumented values (decided for the probe tables of decode_bool, the fps decoder and the safe-area decoder only)",
              "GeneralConfiguration / ISDConfiguration fields have no decoder at all (observation O2)"]
 TRUSTED = ["table of reader / writer modules per file type", "tabled idempotent process-global effects: et.register_namespace, logging configuration, filter registry"]
 
@@ -458,6 +458,49 @@ def check_decoders(ctx):
             f"{p.qualname}|validate, decode every field, construct", ctx.where(p.module, p.node), "validate -> decode -> cls(**kwargs)", "ModuleConfiguration.parse no longer validates, decodes each field with its decoder and constructs the configuration")
 
 
+def check_decoder_probes(ctx):
+  """FIN-decoders: the decoders of the documented configuration values accept the documented
+  examples (with the documented meaning) and reject near misses.  Each decoder is evaluated on a
+  small table of probe values with the finite evaluator; `raises` means the decoder itself raises."""
+  from fractions import Fraction as F
+  from ..consteval import FuncEval, NotConst, Raised
+  ix = ctx.ix
+  fe = FuncEval(ix)
+  table = [
+    ("ttconv.config:decode_bool", {True: True, False: False}, ["true", "false", 0, 1, ""], "README: JSON true / false"),
+    ("ttconv.imsc.config:IMSCWriterConfiguration.FractionDecoder.__call__", {"25/1": F(25), "30000/1001": F(30000, 1001), None: None}, ["25", "29.97", "3e1", "a/b", "1/2/3", "1/0"], 'README: "fps": "<num>/<denom>"'),
+    ("ttconv.filters.doc.lcd:_safe_area_decoder", {0: 0, 10: 10, 30: 30}, [-1, 31, 95], "README: safe_area is an integer between 0 and 30"),
+  ]
+  n = 0
+  for q, accept, reject, doc in table:
+    f = ix.func(q)
+    ctx.unit(f.module)
+    pname = [p_ for p_ in f.params if p_ not in ("self", "cls")][0]
+    bad = []
+    for v, want in accept.items():
+      n += 1
+      try:
+        got = fe.call(f, {pname: v})
+        if got != want or type(got) is not type(want):
+          bad.append(f"{v!r} -> {got!r}, documented meaning {want!r}")
+      except Raised:
+        bad.append(f"{v!r} is rejected although documented")
+      except NotConst as e:
+        raise AnalysisError(f"{q}: leaves the evaluable subset on {v!r} ({e})")
+    for v in reject:
+      n += 1
+      try:
+        got = fe.call(f, {pname: v})
+        bad.append(f"{v!r} is accepted (as {got!r}) although it is not a documented value")
+      except Raised:
+        pass
+      except NotConst as e:
+        raise AnalysisError(f"{q}: leaves the evaluable subset on {v!r} ({e})")
+    ctx.check(not bad, "FIN-decoders", f"{q}|{doc}", ctx.where(f.module, f.node), f"{len(accept)} documented values accepted, {len(reject)} near misses rejected",
+              f"{f.short}: " + "; ".join(bad[:4]) + " - configuration parsing must accept exactly the documented values")
+  ctx.extra["decoder_probe_evaluations"] = n
+
+
 def reachable_modules(ix):
   """Modules imported (transitively) from ttconv.tt."""
   seen, stack = set(), [TT]
@@ -507,5 +550,6 @@ def run(ctx):
   check_config(ctx)
   check_order_and_output(ctx)
   check_decoders(ctx)
+  check_decoder_probes(ctx)
   lint.unsat_ranges(ctx, [m for m in ctx.ix.modules.values() if m.name.endswith("config") or "filters" in m.name], rule="LINT-c")
   check_determinism(ctx)
